@@ -60,6 +60,11 @@ def run(tier):
     traces.append({"id": tid, "recs": tc.raw_records(seed)})
     tid += 1
     traces.append({"id": tid, "recs": tc.track_records(seed)})
+    # (b') conversions as a file hands them out (timestamp properties and channel values read with raw_timestamps=False)
+    for mode in ("read", "open"):
+        tid += 1
+        traces.append({"id": tid, "recs": tc.file_convert_records(seed, mode)})
+        nrec += len(traces[-1]["recs"])
     nrec += len(traces[-1]["recs"]) + len(traces[-2]["recs"])
     chk.count(nrec, range(nrec))
     # validate in batches of at most ~250 000 records per JVM (the deserialised traces live in TLC's heap)
